@@ -746,6 +746,8 @@ class Emitter:
         self.needed_globals = []
         self.ext_funcs = {}        # external functions referenced: name -> Function
         self.ti_ids = {}           # typeinfo name -> small id
+        self.replace = []
+        self.cut_functions = []
 
     # ---- names
     def gname(self, name):
@@ -1269,6 +1271,10 @@ class Emitter:
             a = self.m.aliases[name]
             while isinstance(a, Const) and a.kind == "cast": a = a.data[1]
             if isinstance(a, GlobalRef): name = a.name; callee = a
+        if name:
+            for rx, target, _ in self.replace:
+                if rx.search(name) and f.name != target:
+                    name = target; callee = GlobalRef(target, None); break
         rty = I.rty
         if isinstance(rty, PtrT) and isinstance(rty.to, FuncT): rty = rty.to.ret
         argv = [a for a in I.args]
@@ -1331,6 +1337,9 @@ class Emitter:
             elif re.match(r'llvm\.bswap\.i(\d+)', base):
                 bits = int(re.match(r'llvm\.bswap\.i(\d+)', base).group(1))
                 decl(I.res, rty); out += ["  %s = (%s)vf_bswap((uint64_t)%s, %d);" % (self.lname(I.res), self.ctype(rty), a[0], bits)]
+            elif re.match(r'llvm\.bitreverse\.i(\d+)', base):
+                bits = int(re.match(r'llvm\.bitreverse\.i(\d+)', base).group(1))
+                decl(I.res, rty); out += ["  %s = (%s)vf_bitreverse((uint64_t)%s, %d);" % (self.lname(I.res), self.ctype(rty), a[0], bits)]
             elif re.match(r'llvm\.fsh(l|r)\.i(\d+)', base):
                 mm = re.match(r'llvm\.fsh(l|r)\.i(\d+)', base); bits = int(mm.group(2))
                 decl(I.res, rty); out += ["  %s = (%s)vf_fsh%s((uint64_t)%s, (uint64_t)%s, (uint64_t)%s, %d);" % (self.lname(I.res), self.ctype(rty), mm.group(1), a[0], a[1], a[2], bits)]
@@ -1561,7 +1570,7 @@ def scan_stub_names(paths):
             names.add(mm.group(1))
     return names
 
-def translate(ir_text, entries, stub_paths, havoc=(), noop_re=()):
+def translate(ir_text, entries, stub_paths, havoc=(), noop_re=(), replace=()):
     """noop_re: regexes over mangled names of DEFINED functions whose bodies are cut and replaced by a
     do-nothing / nondeterministic stub (function-level stubbing; every cut is reported by the caller)."""
     m = ModuleParser(ir_text).parse()
@@ -1572,6 +1581,18 @@ def translate(ir_text, entries, stub_paths, havoc=(), noop_re=()):
             f.defined = False; f.blocks = []; havoc.append(name); cut.append(name)
     em = Emitter(m, entries, scan_stub_names(stub_paths), havoc)
     em.cut_functions = cut
+    # function-level replacement: direct calls to a function whose mangled name matches the regex are
+    # redirected to a harness-defined function (contract stub with ghost bookkeeping) of the same ABI signature
+    em.replace = []
+    for spec in replace:
+        rx, _, target = spec.partition("=")
+        tn = [n for n in m.funcs if n == target or re.search(r"(^|[0-9])%s($|E|[A-Z])" % re.escape(target), n) and m.funcs[n].defined]
+        exact = [n for n in m.funcs if n == target]
+        cand = exact or [n for n in m.funcs if target in n and m.funcs[n].defined]
+        if len(cand) != 1: raise NotEncoded("replacement target %r matches %d functions" % (target, len(cand)))
+        hit = [n for n in m.funcs if re.search(rx, n)]
+        if not hit: raise NotEncoded("replacement pattern /%s/ matches no function (was it inlined? build the IR with -fno-inline)" % rx)
+        em.replace.append((re.compile(rx), cand[0], hit))
     return em.run(), em
 
 def main():
@@ -1581,14 +1602,16 @@ def main():
     ap.add_argument("--stub-src", action="append", default=[])
     ap.add_argument("--havoc", default="")
     ap.add_argument("--noop-re", action="append", default=[])
+    ap.add_argument("--replace", action="append", default=[], help="REGEX=harness_function")
     a = ap.parse_args()
     try:
-        text, em = translate(open(a.ir).read(), a.entry.split(","), a.stub_src, [h for h in a.havoc.split(",") if h], a.noop_re)
+        text, em = translate(open(a.ir).read(), a.entry.split(","), a.stub_src, [h for h in a.havoc.split(",") if h], a.noop_re, a.replace)
     except NotEncoded as e:
         print("NOT-ENCODED: %s" % e, file=sys.stderr)
         sys.exit(3)
     open(a.o, "w").write(text)
     if em.cut_functions: print("cut (body replaced by a no-op stub): " + ", ".join(em.cut_functions))
+    for rx, target, hit in em.replace: print("calls to %s redirected to %s" % (", ".join(hit), target))
     print("translated %d functions, %d globals, %d external models used" % (len([f for f in em.needed_funcs if em.m.funcs[f].defined]), len(em.needed_globals), len(em.ext_funcs)))
 
 if __name__ == "__main__":
